@@ -731,6 +731,7 @@ eval_locals = {
     'tan': np.tan,
     'ln': np.log,
     'exp': np.exp,
+    'sqrt': np.sqrt,
 }
 
 
